@@ -109,25 +109,42 @@ def singleValue (t : Val) : Except PyErr Val :=
 
 /-! ## the type check -/
 
-def checkEdge (nodes : Nodes) (e : Edge) : Except PyErr Unit := do
-  let pre ← match lookup e.1 nodes with | some n => pure n | Option.none => throw .keyError
-  let post ← match lookup e.2 nodes with | some n => pure n | Option.none => throw .keyError
-  if pre.isKind "NIRGraph" || post.isKind "NIRGraph" then throw unmodelled
-  if typeUndefined pre.outputType then throw .valueError
-  if typeUndefined post.inputType then throw .valueError
-  let lo ← typeLen pre.outputType
-  let li ← typeLen post.inputType
-  if lo != li then throw .valueError
-  if lo == 1 then
-    let a ← singleValue post.inputType
-    let b ← singleValue pre.outputType
-    if !(← shapeEq a b) then throw .valueError
-  else throw .notImplementedError
+def checkEdge (nodes : Nodes) (e : Edge) : Except PyErr Unit :=
+  match lookup e.1 nodes, lookup e.2 nodes with
+  | Option.none, _ => .error .keyError
+  | _, Option.none => .error .keyError
+  | some pre, some post =>
+    if pre.isKind "NIRGraph" || post.isKind "NIRGraph" then .error unmodelled
+    else if typeUndefined pre.outputType then .error .valueError
+    else if typeUndefined post.inputType then .error .valueError
+    else match typeLen pre.outputType, typeLen post.inputType with
+      | .ok lo, .ok li =>
+        if lo != li then .error .valueError
+        else if lo == 1 then
+          match singleValue post.inputType, singleValue pre.outputType with
+          | .ok a, .ok b =>
+            match shapeEq a b with
+            | .ok true => .ok ()
+            | .ok false => .error .valueError
+            | .error err => .error err
+          | .error err, _ => .error err
+          | _, .error err => .error err
+        else .error .notImplementedError
+      | .error err, _ => .error err
+      | _, .error err => .error err
+
+/-- `for edge in self.edges: …` — stops at the first error -/
+def forEachEdge (f : Edge → Except PyErr Unit) : List Edge → Except PyErr Unit
+  | [] => .ok ()
+  | e :: es => match f e with
+    | .ok () => forEachEdge f es
+    | .error err => .error err
 
 /-- `_check_types()`: `True`, or the first error in edge order. -/
-def checkTypes (g : Node) : Except PyErr Bool := do
-  g.edges.forM (checkEdge g.children)
-  pure true
+def checkTypes (g : Node) : Except PyErr Bool :=
+  match forEachEdge (checkEdge g.children) g.edges with
+  | .ok () => .ok true
+  | .error err => .error err
 
 /-! ## forward type inference -/
 
